@@ -35,6 +35,6 @@ require (
 	gopkg.in/yaml.v3 v3.0.1 // indirect
 )
 
-replace github.com/lightninglabs/neutrino => /repo
+replace github.com/lightninglabs/neutrino => /tmp/wp-static/repo
 
-replace github.com/lightninglabs/neutrino/cache => /repo/cache
+replace github.com/lightninglabs/neutrino/cache => /tmp/wp-static/repo/cache
